@@ -398,6 +398,7 @@ func runC20(c *core.Ctx) core.Meta {
 	checkValueReceiverNotWritten(c, "R20.21", "In the trace reader a Dim3 that scans itself leaves the header's grid and block dimensions at zero with no error.", 3, "nvidia/nvidiaconfig", "nvidia/tracereader")
 	checkLineKeptAtEOF(c, "R20.22", "nvidia/tracereader")
 	checkParsedFieldsComeFromText(c)
+	checkScannerSkipsInALoop(c)
 	return core.Meta{Level: "other",
 		Explanation: "Structural clauses of the NVIDIA trace-driven pipeline decided on SSA of nvidia/{driver,gpu,sm,subcore} with one table row per hierarchy level: SEND-DISCIPLINE on dispatch and report sites, completion propagation (decrement → ==0 test → finished counter; unit returned to the free list with the decrement and by the ID in the message), zero-work completion at every load site, conservation at load and dispatch sites (head of pending list to head of free list, both popped, both tested non-empty); the trace-line parser consumes every token of a line for at most one field (symbolic cursor intervals, linear in the register counts, pairwise disjoint; the trailing token excluded from every slice).",
 		NotDecided:  "parse round-trip of serialised traces beyond the cursor partition (number formats, field meanings); instruction counts as numbers; termination time",
